@@ -1,12 +1,13 @@
 SPECIFICATION Spec
 CONSTANTS
   Rounds = 2
-  FreshQueuePerSolve = TRUE
+  FreshQueuePerSolve = FALSE
   N = 3
-  ExitOnException = TRUE
+  ExitOnException = FALSE
   DetectAllFailed = TRUE
 INVARIANT Agreement
 INVARIANT RaisesOnlyIfNobodyAnswered
 INVARIANT NoLoserConsumesCtrl
 PROPERTY SolveReturns
+PROPERTY AnswerIfSomeoneAnswers
 CHECK_DEADLOCK FALSE
